@@ -21,6 +21,7 @@
 #include <AIToolbox/Seeder.hpp>
 #include <AIToolbox/Utils/Probability.hpp>
 #include <AIToolbox/MDP/Policies/WoLFPolicy.hpp>
+#include <AIToolbox/MDP/Policies/PGAAPPPolicy.hpp>
 #include <AIToolbox/MDP/Policies/Policy.hpp>
 #undef private
 #undef protected
@@ -68,6 +69,20 @@ void c09_grad(const std::string & kind, vio::Cursor & c, vio::Out & o) {
             dumpTables(o, p, S, A);
         }
         for (size_t s = 0; s < S; ++s) { o << peekU(p.actualPolicy_.rand_); o << p.sampleAction(s); }
+    } else if (kind == "pga") {
+        const size_t S = c.nextSize(), A = c.nextSize();
+        MDP::QFunction q(S, A);
+        for (size_t s = 0; s < S; ++s) for (size_t a = 0; a < A; ++a) q(s, a) = c.nextDouble();
+        const double lr = c.nextDouble(), pl = c.nextDouble();
+        const size_t nops = c.nextSize();
+        std::vector<size_t> ops(nops);
+        for (auto & s : ops) s = c.nextSize();
+        const unsigned seed = (unsigned) c.nextSize();
+        Seeder::setRootSeed(seed);
+        MDP::PGAAPPPolicy p(q, lr, pl);
+        dumpTables(o, p, S, A);
+        for (size_t s : ops) { p.stepUpdateP(s); dumpTables(o, p, S, A); }
+        for (size_t s = 0; s < S; ++s) { o << peekU(p.policy_.rand_); o << p.sampleAction(s); }
     } else if (kind == "mpol") {
         const size_t S = c.nextSize(), A = c.nextSize();
         Matrix2D m(S, A);
